@@ -155,6 +155,12 @@ impl<'a> Writer0<'a> {
     }
 
     fn write_manifest_list(&mut self, manifests: &[Manifest], snap: i64, remote_manifest: bool) -> String {
+        self.write_manifest_list_tagged(manifests, snap, remote_manifest, false)
+    }
+
+    /// `tag_deletes`: manifests that hold delete files are marked content = 1 in
+    /// the list, as a v2 writer does.
+    fn write_manifest_list_tagged(&mut self, manifests: &[Manifest], snap: i64, remote_manifest: bool, tag_deletes: bool) -> String {
         let rel = format!("metadata/snap-{}-{}.avro", snap, self.rng.below(1 << 20));
         let schema = Schema::parse_str(MANIFEST_LIST_SCHEMA).expect("list schema");
         let codec = if self.rng.bool() { Codec::Deflate(Default::default()) } else { Codec::Null };
@@ -165,7 +171,7 @@ impl<'a> Writer0<'a> {
                 ("manifest_path".to_string(), AV::String(mp)),
                 ("manifest_length".to_string(), AV::Long(1)),
                 ("partition_spec_id".to_string(), AV::Int(0)),
-                ("content".to_string(), AV::Int(0)),
+                ("content".to_string(), AV::Int(if tag_deletes && m.entries.iter().any(|e| e.file.content != 0) { 1 } else { 0 })),
                 ("sequence_number".to_string(), AV::Long(snap)),
                 ("added_snapshot_id".to_string(), AV::Long(snap)),
                 ("added_files_count".to_string(), AV::Union(1, Box::new(AV::Int(m.entries.len() as i32)))),
@@ -206,7 +212,16 @@ fn build_history(rng: &mut Rng, dir: &Path) -> Built {
         for opi in 0..n_ops {
             let prev: Vec<Manifest> = snaps.last().map(|s| s.manifests.clone()).unwrap_or_default();
             let live_prev: usize = prev.iter().flat_map(|m| m.entries.iter()).filter(|e| e.status != 2).count();
-            let op = if opi == 0 || live_prev == 0 { "append" } else { *w.rng.pick(&["append", "append", "remove", "rewrite-manifests", "metadata-only"]) };
+            let op = if opi == 0 || live_prev == 0 { "append" } else { *w.rng.pick(&["append", "append", "remove", "rewrite-manifests", "metadata-only", "rollback"]) };
+            if op == "rollback" && snaps.len() >= 2 {
+                // the current snapshot is an OLDER one while the newer ones stay listed
+                let to = snaps[w.rng.usize(snaps.len() - 1)].id;
+                ops.push("rollback".into());
+                ts += 10;
+                metas.push((ts, snaps.clone(), Some(to)));
+                continue;
+            }
+            let op = if op == "rollback" { "append" } else { op };
             snap_id += 1 + w.rng.range(0, 1000);
             ts += 1 + w.rng.range(0, 5000);
             let mut manifests: Vec<Manifest>;
@@ -303,9 +318,10 @@ fn build_history(rng: &mut Rng, dir: &Path) -> Built {
                     manifests = vec![w.write_manifest(live, snap_id)];
                 }
             }
-            let list_rel = w.write_manifest_list(&manifests, snap_id, remote_manifest);
+            let tag = w.rng.bool();
+            let list_rel = w.write_manifest_list_tagged(&manifests, snap_id, remote_manifest, tag);
             snaps.push(Snap { id: snap_id, ts, list_rel, manifests });
-            ops.push(format!("ending:{}", kind));
+            ops.push(format!("ending:{}{}", kind, if tag && kind == "delete-files" { "(tagged-in-list)" } else { "" }));
             metas.push((ts + 1, snaps.clone(), Some(snap_id)));
         }
     }
@@ -313,6 +329,14 @@ fn build_history(rng: &mut Rng, dir: &Path) -> Built {
     // metadata files
     let mdir = dir.join("metadata");
     let n = metas.len();
+    // two metadata files written in the same millisecond: with sequence-prefixed
+    // names the later-written (greater) name is the newer one
+    let tie = style == "newest-update" && metas.len() >= 2 && rng.chance(1, 3);
+    if tie {
+        let n = metas.len();
+        metas[n - 1].0 = metas[n - 2].0;
+        ops.push("metadata-tie".into());
+    }
     for (i, (updated, ss, cur)) in metas.iter().enumerate() {
         let body = json!({
             "format-version": if v2 { 2 } else { 1 },
@@ -353,7 +377,7 @@ pub fn run_c17(tier: Tier, seed: u64) -> i32 {
         tier,
         seed,
         "exploration",
-        "Iceberg tables written by a model writer from random histories of 1-8 operations (append 1-3 files, remove files by rewriting a manifest with DELETED/EXISTING entries, manifest rewrites into 1-2 manifests, metadata-only rewrites), format v1 and v2, Avro deflate and uncompressed, metadata found by version-hint.text (`N` and `vN`) or by newest last-updated-ms (also with file names sorted the other way), manifest-list / manifest / data-file URIs as file:///abs, file:/abs, absolute and table-relative paths, with stale metadata files and an orphan data file left behind. The table is opened at the current snapshot and at every listed snapshot; `SELECT id` must return exactly the ids of the files the model holds live in that snapshot. A third of the histories end in a snapshot with delete files, a non-Parquet data file, a remote data or manifest URI or no live file, which must be refused (the earlier snapshots must still read); an unknown snapshot id must be refused. distinct = distinct (discovery style, version, operation sequence, which snapshot was opened)",
+        "Iceberg tables written by a model writer from random histories of 1-8 operations (append 1-3 files, remove files by rewriting a manifest with DELETED/EXISTING entries, manifest rewrites into 1-2 manifests, metadata-only rewrites, rollbacks of the current snapshot to an older one, two metadata files with one timestamp), format v1 and v2, Avro deflate and uncompressed, metadata found by version-hint.text (`N` and `vN`) or by newest last-updated-ms (also with file names sorted the other way), manifest-list / manifest / data-file URIs as file:///abs, file:/abs, absolute and table-relative paths, with stale metadata files and an orphan data file left behind. The table is opened at the current snapshot and at every listed snapshot; `SELECT id` must return exactly the ids of the files the model holds live in that snapshot. A third of the histories end in a snapshot with delete files, a non-Parquet data file, a remote data or manifest URI or no live file, which must be refused (the earlier snapshots must still read); an unknown snapshot id must be refused. distinct = distinct (discovery style, version, operation sequence, which snapshot was opened)",
     );
     let scratch = crate::data::Scratch::new("c17");
     let n = tier.pick(400usize, 12_000);
